@@ -43,7 +43,7 @@ def apply(rebound, rb, sim, cfg, op):
     return _apply(rebound, rb, sim, cfg, op)
 
 
-EDITS = {"add", "remove", "remove_hash", "remove_all", "move", "add_variation", "megno", "switch", "reset_integrator", "signed_zero"}
+EDITS = {"grow_radius", "add", "remove", "remove_hash", "remove_all", "move", "add_variation", "megno", "switch", "reset_integrator", "signed_zero"}
 
 
 def _apply(rebound, rb, sim, cfg, op):
@@ -155,6 +155,16 @@ def _apply(rebound, rb, sim, cfg, op):
         if sim.N_var or sim.N < 2 or not var_ok(sim, sim.integrator, None, current=True) or sim.integrator == "bs":
             return "skip"
         sim.init_megno(seed=op.get("seed", 3))
+    elif k == "grow_radius":
+        if sim.N - sim.N_var <= 0:
+            return "skip"
+        # (by hash rank among the live particles: the array order and the presence of particles flagged for deferred removal differ between an original and
+        #  its restored copy in tree configurations)
+        live = sorted((sim.particles[i].hash.value, i) for i in range(sim.N - sim.N_var) if sim.particles[i].y == sim.particles[i].y)
+        if not live:
+            return "skip"
+        p = sim.particles[live[op["pick"] % len(live)][1]]
+        p.r = p.r * op.get("factor", 2.0)
     elif k == "set_lrescale":
         # documented user-visible member of a variational configuration (docs/chaos.md); -1 disables rescaling
         n = rb.getf(sim, "N_var_config")
